@@ -14,7 +14,7 @@
 
 namespace vsched {
 namespace {
-enum St { RUN, BLK_MUTEX, BLK_CV, BLK_JOIN, DONE };
+enum St { RUN, BLK_MUTEX, BLK_CV, BLK_JOIN, DONE, BLK_CV_TIMED };
 struct Th {
   int id;
   St st = RUN;
@@ -24,6 +24,7 @@ struct Th {
   std::thread real;
   std::function<void()> fn;
   int prio = 0;
+  bool timed_out = false;
 };
 struct MutexState { bool locked = false; int owner = -1; };
 
@@ -52,7 +53,7 @@ uint64_t rnd() {
   // G is held by the caller
   std::string detail = std::string(what) + ";steps=" + std::to_string(steps) + ";threads=";
   for (Th *t : ths) {
-    const char *sn[] = {"RUN", "BLK_MUTEX", "BLK_CV", "BLK_JOIN", "DONE"};
+    const char *sn[] = {"RUN", "BLK_MUTEX", "BLK_CV", "BLK_JOIN", "DONE", "BLK_CV_TIMED"};
     detail += std::to_string(t->id) + ":" + sn[t->st] + " ";
   }
   if (on_fail) on_fail(what, detail.c_str());
@@ -72,6 +73,18 @@ int choose(int me, bool me_enabled) {
     if (!w.empty()) {
       int v = w[rnd() % w.size()];
       ths[v]->st = RUN;
+      en.push_back(v);
+    }
+  }
+  {
+    // a thread in a TIMED wait can always continue (its timeout may expire at any moment: time is not modelled)
+    std::vector<int> tw;
+    for (Th *t : ths)
+      if (t->st == BLK_CV_TIMED) tw.push_back(t->id);
+    if (!tw.empty() && (en.empty() || (int)(rnd() % 100) < 20)) {
+      int v = tw[rnd() % tw.size()];
+      ths[v]->st = RUN;
+      ths[v]->timed_out = true;
       en.push_back(v);
     }
   }
@@ -222,12 +235,44 @@ void cv_wait(void *cv, void *m) {
   s.locked = true;
   s.owner = me;
 }
+bool cv_wait_timed(void *cv, void *m) {
+  if (!active) return true;
+  std::unique_lock<std::mutex> lk(G);
+  int me = my_id;
+  if (!mtx[m].locked || mtx[m].owner != me) fail("cv-wait-without-mutex");
+  sched_point_locked(lk);
+  unlock_nosched(m);
+  ths[me]->st = BLK_CV_TIMED;
+  ths[me]->on = cv;
+  ths[me]->timed_out = false;
+  switch_away(lk);
+  bool notified = !ths[me]->timed_out;
+  MutexState &s = mtx[m];
+  while (s.locked) {
+    ths[me]->st = BLK_MUTEX;
+    ths[me]->on = m;
+    switch_away(lk);
+  }
+  s.locked = true;
+  s.owner = me;
+  return notified;
+}
+bool mutex_try_lock(void *m) {
+  if (!active) return true;
+  std::unique_lock<std::mutex> lk(G);
+  sched_point_locked(lk);
+  MutexState &s = mtx[m];
+  if (s.locked) return false;
+  s.locked = true;
+  s.owner = my_id;
+  return true;
+}
 void cv_notify(void *cv, bool all) {
   if (!active) return;
   std::unique_lock<std::mutex> lk(G);
   std::vector<Th *> w;
   for (Th *t : ths)
-    if (t->st == BLK_CV && t->on == cv) w.push_back(t);
+    if ((t->st == BLK_CV || t->st == BLK_CV_TIMED) && t->on == cv) w.push_back(t);
   if (all)
     for (Th *t : w) t->st = RUN;
   else if (!w.empty())
